@@ -483,12 +483,14 @@ def c17(tier):
     pkg = "./pkg/history"
     units = [U(pkg, "VerifC17Find", weight=3, cond=c, nconcrete=2 if c == 0 else 0) for c in range(10)]
     units += [U(pkg, "VerifC17Track", weight=10, mode=m) for m in range(6)]
+    # Export / Import round trip on the real machine (pkg/machine)
+    units += [U(MACH, "VerifC17Export", weight=6, n=2), U(MACH, "VerifC17Export", weight=6, n=3, schema=0)]
     return {"units": units,
             "bounds": {"db": "0..3 records over 2 tracked states (of a 3-state machine whose index order differs from the tracked order), ticks 0..3", "query": "one state condition "
                        "(Active / Activated / Inactive / Deactivated over either tracked state) or one scalar range (MTimeSum, MachTick), limit 0..2",
                        "tracking": "1..2 transitions (accepted / rejected / check, called A or B, symbolic tick changes), MaxRecords 1..2, Called / Changed allow- and block-lists, TrackRejected"},
             "outside": ["bbolt / badger / gorm backends and backend equivalence", "crash points after Sync", "MTime/MTimeStates ranges (Time.Before/After are documented one way and implemented "
-                        "another)", "HTime ranges (wall clock)", "Machine.Export/Import", "combinations of Called and Changed lists (ambiguous semantics)"],
+                        "another)", "HTime ranges (wall clock)", "Import of a Serialized built by hand or from another schema (error paths), the MachineRestored handler, JSON encoding of Serialized", "combinations of Called and Changed lists (ambiguous semantics)"],
             "assumptions": ["Memory built as a struct literal around a stub am.Api (StateNames, Time, MachineTick, Index1)", "tracer.TransitionEnd called directly with constructed transitions"]}
 
 
